@@ -145,6 +145,17 @@ def make_table(rng, frames, frame_numbers, reverse_pos=False):
         df.index = pd.Index(df['frame'].values, name='frame')
     elif kind == 'float_frame':
         df['frame'] = df['frame'].astype(float)
+    # how the frame numbers are stored: int64 (default), or a narrower / unsigned integer dtype they fit in (files written
+    # by cameras and other tools); the rows keep whatever order they have
+    if kind != 'float_frame' and n and rng.random() < 0.3:
+        lo_f, hi_f = min(frame_numbers), max(frame_numbers)
+        fits = [d for d in ('uint8', 'uint16', 'uint32', 'uint64', 'int16', 'int32') if np.iinfo(d).min <= lo_f and hi_f <= np.iinfo(d).max]
+        if fits:
+            fdt = rng.choice(fits)
+            df['frame'] = df['frame'].astype(fdt)
+            if kind == 'named_frame':
+                df.index = pd.Index(df['frame'].values, name='frame')
+            kind += '+frame:' + fdt
     df['_rid'] = np.arange(n)     # row identity carried through as an ordinary column
     if reverse_pos:
         order = ['frame'] + cols[::-1] + [c for c in df.columns if c not in cols and c != 'frame']   # x before y (before z)
